@@ -178,3 +178,16 @@ def _parameter_action_contracts():
 
 
 CONTRACTS.extend(_parameter_action_contracts())
+
+# ---- further grammar-action contracts live in a sibling file
+import importlib.util as _ilu
+import sys as _sys
+_p = _os.path.join(_os.path.dirname(_os.path.abspath(__file__)), 'C08_mof.py')
+if _os.path.exists(_p):
+    _s = _ilu.spec_from_file_location('contracts_C08_mof', _p)
+    _m = _ilu.module_from_spec(_s)
+    _sys.modules['contracts_C08_mof'] = _m
+    _s.loader.exec_module(_m)
+    CONTRACTS.extend(_m.CONTRACTS)
+    for _k, _v in getattr(_m, 'CLASS_SPECS', {}).items():
+        CLASS_SPECS.setdefault(_k, {}).update(_v)
